@@ -25,6 +25,7 @@ class NodeRec:
         self.pushes = []          # (seq, t, out-edge index, item)
         self.offers = []          # (seq, t, kind rp|canput, out-edge index, result)
         self.drops = 0            # history-derived number of dropped units
+        self.looked_dropped = {}  # item id -> lifecycle of items the node stopped referencing
         self.first_seen = 0
         self.npulled = 0
         # splitter
@@ -342,8 +343,14 @@ class Oracles:
 
     def node_push(self, nr, iid, obj, seq, t, oi, eid):
         life = nr.held.pop(iid, None)
+        if life is None:
+            # the node no longer referenced this item (it looked dropped) and yet pushes it now: it held it all along
+            life = nr.looked_dropped.pop(iid, None)
+            if life is not None:
+                nr.drops -= 1
+                self.probe("item_unreferenced_by_node_but_pushed_later")
         if life is not None:
-            life["leave_t"], life["leave"], life["out"] = t, "put", oi
+            life["leave_t"], life["leave"], life["out"], life["leave_seq"] = t, "put", oi, seq
         if nr.type == "splitter":
             self.splitter_emit(nr, iid, obj, life, t)
         elif nr.type == "combiner":
@@ -474,7 +481,8 @@ class Oracles:
         now = self.run.env.now
         for iid in gone:
             life = nr.held.pop(iid)
-            life["leave_t"], life["leave"] = now, "discard"
+            life["leave_t"], life["leave"], life["leave_seq"] = now, "discard", -1
+            nr.looked_dropped[iid] = life
             nr.drops += 1
             self.fault("discard")
             if nr.blocking:
